@@ -1369,7 +1369,13 @@ func genC02(cw *caseWriter, seed uint64, tier string) {
 	r := newRng(seed)
 	g := &jgen{r: r, depth: 4}
 	fixed := []string{`{}`, ` { } `, `{"a":1}`, `{"b":{"q":1,"a":[{"z":1,"y":{"x":[]}}]},"a":null}`, `{"n":[-0,1E+2,0.10,123456789012345678901234567890,1e-400]}`,
-		`{"s":"\u00e9\ud83d\ude00\n\t\"\\\/\b\f\r"}`, `{"":{"":{"":{}}}}`, `{"a":[[],[[]],{}]}`, `{"k":"<>&\u2028"}`}
+		`{"s":"\u00e9\ud83d\ude00\n\t\"\\\/\b\f\r"}`, `{"":{"":{"":{}}}}`, `{"a":[[],[[]],{}]}`, `{"k":"<>&\u2028"}`,
+		// member names that are RELATED to one another: a dotted name whose segments spell a path into an earlier member,
+		// names equal after case folding (ASCII, accented, the Kelvin sign), a name that is the text of the JSON escaping
+		// of another name, names that differ by a trailing space or a NUL — all distinct names, each member kept
+		`{"a":{"b":1},"a.b":2}`, `{"a.b":2,"a":{"b":1}}`, `{"x":[{"a":{"b":{"c":1}}}],"a":{"b":{"c":2}},"a.b.c":3,"a.b":4}`, `{"Ref":7,"ref":8,"REF":9}`,
+		`{"\u00e9":1,"\u00c9":2,"k":3,"\u212a":4}`, `{"ab":1,"a\\u0062":2}`, `{"C:\\temp":1,"C:\temp":2}`, `{"a":1,"a ":2,"a\u0000":3}`,
+		`{"o":{"id":1,"ID":2,"Id":{"id":3,"iD":4}}}`}
 	for _, f := range fixed {
 		emitRoundTrip(cw, []byte(f), true)
 	}
